@@ -62,6 +62,7 @@ fn send(s: &mut Sys, c: &str, sender: &Addr, msg: &Value, funds: bool, salt: u64
             let tg = |sw: Option<bool>, dep: Option<bool>, wd: Option<bool>| Some(pm::FeatureToggle { pool_identifier: "o.a".into(), swaps_enabled: sw, deposits_enabled: dep, withdrawals_enabled: wd });
             let cur = s.q_pool("o.a").map(|p| p.pool_info.status);
             let m = match what {
+                "nothing" => pm::ExecuteMsg::UpdateConfig { fee_collector_addr: None, farm_manager_addr: None, pool_creation_fee: None, feature_toggle: None },
                 "fee_collector" => pm::ExecuteMsg::UpdateConfig { fee_collector_addr: Some(if salt % 2 == 0 { other } else { s.users[4].to_string() }), farm_manager_addr: None, pool_creation_fee: None, feature_toggle: None },
                 "farm_manager" => pm::ExecuteMsg::UpdateConfig { fee_collector_addr: None, farm_manager_addr: Some(if salt % 2 == 0 { other } else { s.users[4].to_string() }), pool_creation_fee: None, feature_toggle: None },
                 "pool_creation_fee" => pm::ExecuteMsg::UpdateConfig { fee_collector_addr: None, farm_manager_addr: None, pool_creation_fee: Some(coin(1001 + salt as u128, "uusd")), feature_toggle: None },
@@ -75,6 +76,7 @@ fn send(s: &mut Sys, c: &str, sender: &Addr, msg: &Value, funds: bool, salt: u64
             let cfg = s.q_fm_config();
             let mut m = (None, None, None, None, None, None, None, None, None, None);
             match what {
+                "nothing" => {}
                 "fee_collector" => m.0 = Some(if cfg.fee_collector_addr.as_str() == other { s.users[4].to_string() } else { other }),
                 "epoch_manager" => m.1 = Some(if cfg.epoch_manager_addr.as_str() == other { s.users[4].to_string() } else { other }),
                 "pool_manager" => m.2 = Some(if cfg.pool_manager_addr.as_str() == other { s.users[4].to_string() } else { other }),
@@ -95,7 +97,8 @@ fn send(s: &mut Sys, c: &str, sender: &Addr, msg: &Value, funds: bool, salt: u64
         "em" => {
             let now = s.now();
             let cfg = s.q_em_config();
-            let msg = em::ExecuteMsg::UpdateConfig { epoch_config: Some(em::EpochConfig { duration: Uint64::new(cfg.epoch_config.duration.u64() + 1), genesis_epoch: Uint64::new(now + 10) }) };
+            let msg = if what == "nothing" { em::ExecuteMsg::UpdateConfig { epoch_config: None } } else {
+                em::ExecuteMsg::UpdateConfig { epoch_config: Some(em::EpochConfig { duration: Uint64::new(cfg.epoch_config.duration.u64() + 1), genesis_epoch: Uint64::new(now + 10) }) } };
             s.exec(sender, &ca, &msg, &f).is_ok()
         }
         _ => false,
